@@ -493,7 +493,78 @@ def body_extractor(ctx, case):
         ctx.nontrivial(repr(case))
 
 
+# ---------------------------------------------------------------- the image-driven line detector of TextlineExtractorSimple
+def strat_simple_engine():
+    from hypothesis import strategies as st
+
+    @st.composite
+    def case(draw):
+        r = draw(region_strategy(kinds=("box", "L", "U", "U", "comb", "comb", "convex")))
+        return dict(region=r, period=draw(st.integers(30, 48)), text_h=draw(st.integers(12, 18)), seed=draw(st.integers(0, 2 ** 31 - 1)),
+                    first=draw(st.integers(16, 40)))
+    return case()
+
+
+def body_simple_engine(ctx, case):
+    """TextlineExtractorSimple with its real, model-free detector (thresholding, projection profile) on a synthetic page: rows
+    of dark 'words' are painted inside a region of drawn shape; every line the extractor places must lie inside the region
+    polygon (rows that cross a concave region several times included), ids must be unique."""
+    from pero_ocr.core.layout import PageLayout, RegionLayout
+    from pero_ocr.document_ocr import page_parser as PP
+    from pero_ocr.layout_engines.simple_baseline_engine import EngineLineDetectorSimple
+    r = case["region"]
+    poly = [(x - min(p[0] for p in r["poly"]) + 30.0, y - min(p[1] for p in r["poly"]) + 30.0) for x, y in r["poly"]]
+    W = int(max(p[0] for p in poly)) + 40
+    Hh = int(max(p[1] for p in poly)) + 40
+    img = np.full((Hh, W, 3), 255, dtype=np.uint8)
+    rs = np.random.RandomState(case["seed"])
+    rows, multi = 0, False
+    y = 30 + case["first"]
+    while y < Hh - 40:
+        ivs = [(a, b) for a, b in chord_intervals(poly, y - case["text_h"] / 2.0) if b - a > 60]
+        if len(ivs) >= 2:
+            multi = True
+        for a, b in ivs:
+            x = a + 14
+            while x < b - 30:
+                w = int(rs.randint(10, 28))
+                if x + w > b - 14:
+                    break
+                img[y - case["text_h"]:y, int(x):int(x) + w] = 0
+                x += w + 6
+        rows += 1
+        y += case["period"]
+    ex = object.__new__(PP.TextlineExtractorSimple)
+    ex.engine = EngineLineDetectorSimple()
+    pl = PageLayout(id="p", page_size=(Hh, W))
+    pl.regions = [RegionLayout("r0", np.asarray(poly, dtype=np.float64))]
+    desc = lambda: "case=%r" % (case,)
+    import warnings
+    with warnings.catch_warnings():
+        warnings.simplefilter("ignore")
+        out = ctx.must("extractor_raises", ex.process_page, img, pl)
+    lines = list(out.lines_iterator())
+    ids = [l.id for l in lines]
+    ctx.check(len(ids) == len(set(ids)), "duplicate_line_ids", lambda: "%r; " % (ids,) + desc())
+    for l in lines:
+        b = [(float(x), float(yy)) for x, yy in np.asarray(l.baseline)]
+        for k in range(41):
+            t = k / 40.0
+            q = (b[0][0] + t * (b[-1][0] - b[0][0]), b[0][1] + t * (b[-1][1] - b[0][1])) if len(b) == 2 else b[min(len(b) - 1, int(t * (len(b) - 1)))]
+            inside = geom.point_in_polygon(q, poly) or geom.boundary_dist(q, poly) <= 1.5       # coordinates are rounded to whole pixels
+            ctx.check(inside, "placed_baseline_outside_region",
+                      lambda: "line %s baseline %r: point %r lies %.1f px outside the region; " % (l.id, b, q, geom.boundary_dist(q, poly)) + desc())
+    ctx.event("region:" + r["kind"])
+    if lines:
+        ctx.event("lines_detected")
+    if multi:
+        ctx.event("a_text_row_crosses_the_region_several_times")
+    if lines and multi:
+        ctx.nontrivial(repr(case))
+
+
 UNITS = [
     Unit("assign", "given", body=body_assign, strategy=strat_assign, quick=2400, thorough=24000, shards_quick=8),
     Unit("extractor", "given", body=body_extractor, strategy=strat_extractor, quick=1200, thorough=8000, shards_quick=8),
+    Unit("simple_engine", "given", body=body_simple_engine, strategy=strat_simple_engine, quick=160, thorough=2500, shards_quick=8),
 ]
